@@ -147,12 +147,19 @@ def drive_b(rec, part, count):
             L.set_cpu_mask(MASK_NONE)
         mat = [[rng.randrange(-3, 4) for _ in range(n)] for _ in range(nrows * ncols)]
         a = [[rng.randrange(-3, 4) for _ in range(n)] for _ in range(a_size)]
-        family = rng.choice(["dense", "dense", "null-limbs", "null-entries", "unit"])
+        family = rng.choice(["dense", "dense", "null-limbs", "null-entries", "unit", "cancel"])
         if family == "null-limbs":                     # whole limbs of the vector are the zero polynomial
             a = [x if rng.random() < 0.5 else [0] * n for x in a]
         elif family == "null-entries":                 # whole entries / rows / columns of the matrix are zero
             zr, zc = rng.randrange(nrows), rng.randrange(ncols)
             mat = [([0] * n if (rng.random() < 0.3 or k // ncols == zr or k % ncols == zc) else v) for k, v in enumerate(mat)]
+        elif family == "cancel" and a_size >= 2:       # the limbs of the vector (and the rows of the matrix) cancel: their sum is the zero polynomial
+            v = a[0]
+            cs = [rng.choice([1, -1, 2]) for _ in range(a_size - 1)]
+            a = [[c * x for x in v] for c in cs] + [[-sum(cs) * x for x in v]]
+            if rng.random() < 0.5 and nrows >= 2:
+                for j in range(ncols):
+                    mat[(nrows - 1) * ncols + j] = [-sum(mat[i * ncols + j][t] for i in range(nrows - 1)) for t in range(n)]
         elif family == "unit" and a_size:              # the vector selects one row
             k = rng.randrange(a_size)
             a = [([1] + [0] * (n - 1)) if i == k else [0] * n for i in range(a_size)]
